@@ -66,6 +66,7 @@ type OracleSet struct {
 	ExtAuth         bool // C18: protected paths are intercepted or denied
 	OrderIndep      bool // C06: permuted fresh pipelines == canonical fresh pipeline
 	CrossNS         bool // C09: denied cross-namespace references have no influence
+	NSProjection    bool // C09: the configuration of one namespace does not depend on the objects of the others
 	Gateway         bool // C10: Gateway API admission reference vs configuration
 	Acme            bool // C17: acme signing decisions and queue tracking
 	Spacing         bool // C13 (L2): reconciliations of one kind keep the configured distance, whoever asked for them
@@ -492,6 +493,9 @@ func (r *Run) syncPoint(note string) {
 	}
 	if r.or.CrossNS {
 		r.checkCrossNamespace()
+	}
+	if r.or.NSProjection {
+		r.checkNamespaceProjection()
 	}
 	if r.or.Gateway {
 		r.checkGateway()
